@@ -138,6 +138,10 @@ def _pool(seed):
         "ip-extra": mk(11, "extra", AccessoryIP="192.168.1.21", AccessoryPort=51827, Connection="IP", name="Some Name", Future={"nested": [1, 2.5, None, "ü"]}),
         "ip-lower": ("lower id", dict(mk(12, "", AccessoryIP="192.168.1.22", AccessoryPort=51828, Connection="IP")[1], AccessoryPairingID="aa:bb:cc:dd:ee:0c")),
         "ip-emptyalias": mk(13, "", AccessoryIP="192.168.1.23", AccessoryPort=51829, Connection="IP"),
+        # one accessory known under two aliases: reachable over IP and over Bluetooth (HAP devices with both radios use ONE accessory id), and an
+        # old entry for it left behind under another name with the id in lower case
+        "ble-same-acc": mk(1, "living room (bluetooth)", AccessoryAddress="11:22:33:44:55:01", Connection="BLE"),
+        "ip-same-acc-lower": ("living room (old entry)", dict(mk(1, "", AccessoryIP="192.168.1.99", AccessoryPort=51830, Connection="IP")[1], AccessoryPairingID="aa:bb:cc:dd:ee:01")),
         # same alias and id as "ip", new address (what an address change / re-pair looks like)
         "ip-moved": mk(1, "living room", AccessoryIP="192.168.7.77", AccessoryPort=40000, Connection="IP"),
     }
@@ -168,7 +172,7 @@ def _expected_view(members, pool):
         v.setdefault("Connection", "IP")
         v["_class"] = {"IP": "IpPairing", "CoAP": "CoAPPairing", "BLE": "BlePairing"}[v["Connection"]]
         out[alias] = v
-    return out, sorted(pool[m][1]["AccessoryPairingID"].lower() for m in members)
+    return out, sorted({pool[m][1]["AccessoryPairingID"].lower() for m in members})
 
 
 def _view(controller):
@@ -997,6 +1001,9 @@ CASES = {
     "cache": case_cache,
     "cache_crash": case_cache_crash,
 }
+from vt.props import c20_cfg as _cfg  # noqa: E402
+
+CASES.update(_cfg.CASES)
 
 
 # ================================================================ work dispatch
@@ -1008,6 +1015,8 @@ def _work_list(item, seed, tier):
         v = fn(p)
         if name == "locale":
             nontrivial, syms = True, (name, "locale:" + p["inner"]["case"])
+        elif name == "config_change":
+            nontrivial, syms = True, (name, "config_change:" + p["transport"]) + tuple("cfg:" + x for x in p["history"])
         elif name == "pairings":
             nontrivial, syms = bool(p["members"]), (name,) + tuple(f"pairings:{m}" for m in p["members"])
         else:
@@ -1132,8 +1141,12 @@ def run(ctx):
                                corruptions="every prefix; 0xFF / NUL / '\"' substituted at every position; '\"' inserted at every position; NUL from every position to the end",
                                cache_save_crash_scenarios=sorted(CACHE_SCENARIOS))
 
+    # ---- (4) configuration changes announced to a connected pairing: what a restart reads afterwards
+    work += _chunks("config_change", _cfg.plan(ctx.tier, seed), 20)
+    ctx.bounds["config_change"] = dict(alphabet=_cfg.ALPH, transports=["ip", "coap"], history_length=3 if quick else 5)
+
     # heavy chunks first
-    order = {"database": 0, "crash": 1, "cache": 2, "cache_crash": 3, "pairings": 4, "locale": 1}
+    order = {"config_change": 4, "database": 0, "crash": 1, "cache": 2, "cache_crash": 3, "pairings": 4, "locale": 1}
     work.sort(key=lambda w: order[w[0]])
     ctx.pmap(_work, work)
     ctx.exhaustive = True
